@@ -32,6 +32,11 @@ def main():
             continue  # recorded in DESIGN.md as undetected on purpose
         corpus.append({"id": "seed:" + os.path.basename(d.rstrip("/")), "prop": prop, "patch": d + "patch.diff", "expect": "any"})
     for d in sorted(glob.glob(ROOT + "/refactors/%s-*/" % prop)):
+        try:
+            if json.load(open(d + "meta.json")).get("expect", "silent") != "silent":
+                continue  # recorded as not silent (reason in its meta.json and in DESIGN.md)
+        except Exception:
+            pass
         corpus.append({"id": "refactor:" + os.path.basename(d.rstrip("/")), "prop": prop, "patch": d + "patch.diff", "expect": "silent"})
     work = tempfile.mkdtemp(prefix="selftest-", dir=os.path.join(ROOT, "evidence"))
     try:
